@@ -8,6 +8,8 @@ mkdir -p "$out"
 if [ -f "$src/patch.diff" ]; then cp "$src/patch.diff" "$src/demo.py" "$src/meta.json" "$out/" || exit 2; fi
 [ -f "$out/patch.diff" ] || { echo "no such seed: $id $x"; exit 2; }
 git -C /repo worktree remove --force "$wt" >/dev/null 2>&1
+# a seed written against an older /repo commit (its context was changed by a later fix: commit) names that commit in seeded/<id>-<X>/base
+[ -z "$SEED_BASE" ] && [ -f "$out/base" ] && SEED_BASE=$(cat "$out/base")
 git -C /repo worktree add --detach "$wt" "${SEED_BASE:-HEAD}" >/dev/null 2>&1
 log="$out/confirm.log"; : > "$log"
 echo "repo base: $(git -C "$wt" rev-parse --short HEAD)" >> "$log"
